@@ -104,6 +104,53 @@ def gen(tu):
     yield "generator pairing", guarded(run)
 
 
+def gen_native(tu):
+    """BOUNDED: the real pairing() on sampled subgroup points (and identity cases) against the reference pairing of the same coordinates"""
+    def run(path):
+        import replay as R_, tempfile, shutil
+        wd = tempfile.mkdtemp(prefix="jpv.pr.")
+        try:
+            ks = [(1, 1), (2, 3), (0x1234567, 0x89abcdef0123), (R - 1, 5), (7, R - 2), (0, 9), (11, 0)]
+            lines = [R_.unity_source(), "#include <stdio.h>", "#include <string.h>", "using namespace embedded_pairing; using namespace embedded_pairing::core; using namespace embedded_pairing::bls12_381;",
+                     "static void pr(const char* n, int k, const void* p, size_t s){ printf(\"%s%d\", n, k); for(size_t i=0;i<s/8;i++) printf(\" %llu\", (unsigned long long)((const uint64_t*)p)[i]); printf(\"\\n\"); }",
+                     "int main(){"]
+            for k, (a, b) in enumerate(ks):
+                wa = ", ".join("%dULL" % ((a >> (64 * i)) & (2**64 - 1)) for i in range(4))
+                wb = ", ".join("%dULL" % ((b >> (64 * i)) & (2**64 - 1)) for i in range(4))
+                lines.append("  { BigInt<256> a, b; uint64_t wa[4] = {%s}, wb[4] = {%s}; memcpy(&a, wa, 32); memcpy(&b, wb, 32); G1 p; G2 q; p.multiply(G1Affine::generator, a); q.multiply(G2Affine::generator, b);"
+                             " G1Affine pa; G2Affine qa; pa.from_projective(p); qa.from_projective(q); Fq12 e; pairing(e, pa, qa);"
+                             " uint64_t inf[2] = {(uint64_t)pa.is_zero(), (uint64_t)qa.is_zero()}; pr(\"inf\", %d, inf, 16); pr(\"px\", %d, &pa.x, 48); pr(\"py\", %d, &pa.y, 48); pr(\"qx\", %d, &qa.x, 96); pr(\"qy\", %d, &qa.y, 96); pr(\"e\", %d, &e, 576); }" % (wa, wb, k, k, k, k, k, k))
+            lines.append("  return 0; }")
+            native, err = R_.run_native("\n".join(lines), wd, "pairing_native")
+            if native is None:
+                raise SymxErrorLike(err)
+            val = lambda ws: from_mont(sum(x << (64 * i) for i, x in enumerate(ws)))
+            obs = []
+            for k, (a, b) in enumerate(ks):
+                e = native["e%d" % k]
+                lib = TR.from_flat(12, [val(e[6 * i:6 * i + 6]) for i in range(12)])
+                if native["inf%d" % k] != [0, 0]:
+                    ok = lib == TR.one(12)
+                    what = "identity member -> 1"
+                else:
+                    px, py = val(native["px%d" % k]), val(native["py%d" % k])
+                    qx = (val(native["qx%d" % k][:6]), val(native["qx%d" % k][6:]))
+                    qy = (val(native["qy%d" % k][:6]), val(native["qy%d" % k][6:]))
+                    ok = lib == reference_pairing(px, py, qx, qy)
+                    what = "== reference pairing of the same coordinates"
+                obs.append(("native pairing([%d]G1, [%d]G2) %s" % (a % 10**6, b % 10**6, what), "ok" if ok else "fail", "", None))
+            return obs
+        finally:
+            shutil.rmtree(wd, ignore_errors=True)
+    yield "sampled points", guarded(run)
+
+
+class SymxErrorLike(Exception):
+    pass
+
+
 def units():
     return [ScenUnit("generator_pairing == e(G1 generator, G2 generator) by the definition-level reference pairing; order r", P, gen, targets=[],
-                     contracts_used=["tools/tower_ref.py: tower arithmetic from the defining polynomials", "the refinement of miller_loop / final_exponentiation to this algorithm: contracts/pairing_c.py"])]
+                     contracts_used=["tools/tower_ref.py: tower arithmetic from the defining polynomials", "the refinement of miller_loop / final_exponentiation to this algorithm: contracts/pairing_c.py"]),
+            ScenUnit("native pairing() == definition-level reference pairing on sampled subgroup points and identity cases", P, gen_native, tier="thorough", kind="bounded",
+                     bound="7 point pairs ([a]G1, [b]G2), incl. a = 0 / b = 0 and a, b near r", targets=[], note="bounded evidence for the step the refinement argument takes from the literature")]
